@@ -3,6 +3,6 @@
 p=$1; k=$2; shift; shift
 [ -d /tmp/cd ] || git -C /repo worktree add -q --detach /tmp/cd HEAD
 git -C /tmp/cd reset -q --hard; git -C /tmp/cd checkout -q --detach "$(git -C /repo rev-parse HEAD)"
-git -C /tmp/cd apply /verif/neutral/$p/patch_$k.diff || git -C /tmp/cd apply --3way /verif/neutral/$p/patch_$k.diff || { echo "patch does not apply"; exit 2; }
+git -C /tmp/cd apply /verif/${NDIR:-neutral}/$p/patch_$k.diff || git -C /tmp/cd apply --3way /verif/${NDIR:-neutral}/$p/patch_$k.diff || { echo "patch does not apply"; exit 2; }
 for c in "$@"; do /verif/check $c --repo /tmp/cd --quiet --evidence-dir /tmp/cd_ev 2>&1 | grep -v KNOWN-FINDING | cut -c1-400; done
 git -C /tmp/cd reset -q --hard
